@@ -341,6 +341,13 @@ def ref_etag_match(etag, h, weak_ok):
 
 
 def oracle(line, out):
+    """property oracle; the verdict is a class (numbers blanked) so that one defect gives one
+    violation signature — the concrete numbers are in the replay's input"""
+    v = oracle_detail(line, out)
+    return re.sub(r"-?\d+", "N", v) if v else None
+
+
+def oracle_detail(line, out):
     t = line.split(" ")
     op = t[0]
     if out == "bad-op":
@@ -527,14 +534,16 @@ def dec(rng, x):
 def spec(rng, n, prev_end=None):
     r = rng.random()
     ws = lambda: rng.choice(["", "", "", " ", "\t", "  "])
-    if r < 0.55:
+    if r < 0.58:
         a = num(rng, n, prev_end)
-        b = a + rng.choice([0, 0, 1, 2, 5, 80, 81, n]) if rng.random() < 0.7 else num(rng, n)
+        b = a + rng.choice([0, 0, 1, 2, 5, 80, 81, n]) if rng.random() < 0.8 else num(rng, n)
+        if b < a and rng.random() < 0.8:
+            a, b = b, a
         return ws() + "%s-%s" % (dec(rng, a), dec(rng, b)) + ws(), (a, b)
-    if r < 0.75:
+    if r < 0.78:
         a = num(rng, n, prev_end)
         return ws() + dec(rng, a) + "-" + ws(), (a, None)
-    if r < 0.92:
+    if r < 0.97:
         a = num(rng, n)
         return ws() + "-" + dec(rng, a) + ws(), None
     return rng.choice(["", "-", "5", "a-b", "1-2-3", "--5", "+1-2", "1 -2", "1- 2", "0x1-5", "1-2;q=1",
@@ -561,6 +570,34 @@ def range_header(rng, n):
                 prev_end = None
     unit = rng.choice(["bytes="] * 12 + ["Bytes=", "BYTES="])
     return (unit + ",".join(specs)).encode("latin-1")
+
+
+def spaced_header(rng, n):
+    """ranges mostly further apart than the 80-byte coalescing gap: multipart answers"""
+    k = rng.choice([2, 2, 2, 3, 3, 4, 5, 6, 8, 10, 11])
+    pos, specs = rng.randint(0, 3), []
+    for _ in range(k):
+        ln = rng.choice([1, 1, 2, 3, 10, 40])
+        if pos >= n:
+            pos = rng.randint(0, max(n - 1, 0))
+        a, b = pos, pos + ln - 1
+        r = rng.random()
+        if r < 0.75:
+            specs.append("%d-%d" % (a, b))
+        elif r < 0.85:
+            specs.append("%d-" % a)
+        elif r < 0.95:
+            specs.append("-%d" % rng.choice([1, 2, 5, max(n - a, 1)]))
+        else:
+            specs.append(spec(rng, n)[0])
+        pos = b + rng.choice([82, 82, 83, 90, 100, 200, 81, 80, 1, n // 3 + 1])
+    r = rng.random()
+    if r < 0.35:
+        rng.shuffle(specs)
+    elif r < 0.5 and len(specs) > 1:
+        i, j = rng.randrange(len(specs)), rng.randrange(len(specs))
+        specs[i], specs[j] = specs[j], specs[i]
+    return ("bytes=" + rng.choice([",", ", ", " ,", ","]).join(specs)).encode("latin-1")
 
 
 def rng_line(meth, ver, a10, st, fl, lay, rep, rg, ir, et, lm, ct, ar):
@@ -607,10 +644,19 @@ def gen_rng(ctx, count):
                 lines.append(rng_line(0, 1, 0, 200, 1, layout(rng, n), rep,
                                       b"bytes=%d-,-%d" % (a, b), None, None, None, None, None))
     for _ in range(count):
-        n = rng.choice(lens_small) if rng.random() < 0.45 else rng.choice(lens_multi)
+        mode = rng.random()
+        if mode < 0.35:
+            n = rng.choice(lens_small)
+        elif mode < 0.70:
+            n = rng.choice([170, 200, 255, 256, 257, 300, 500, 1000, 1200, rng.randint(164, 1500)])
+        else:
+            n = rng.choice(lens_small) if rng.random() < 0.3 else rng.choice(lens_multi)
         rep = rep_bytes(rng, n)
-        rg = range_header(rng, n) if rng.random() < 0.97 else None
-        r = rng.random()
+        if 0.35 <= mode < 0.70:
+            rg = spaced_header(rng, n)
+        else:
+            rg = range_header(rng, n) if rng.random() < 0.97 else None
+        r = rng.random() * 1.6
         meth, ver, a10, st, fl = 0, rng.choice([1, 1, 2]), 0, 200, 1
         ir, et, lmv, ct, ar = None, None, None, None, None
         if rng.random() < 0.5:
@@ -721,7 +767,7 @@ def gen_etag(ctx, count):
         for k in range(0, L + 1):
             for tup in itertools.product(alpha, repeat=k):
                 h = b"".join(tup)
-                lines.append("etag %d %s %s" % ((len(h) + k) & 1 if ctx.quick else 1, hx(et), hx(h)))
+                lines.append("etag %d %s %s" % (sum(h) & 1 if ctx.quick else 1, hx(et), hx(h)))
                 if not ctx.quick:
                     lines.append("etag 0 %s %s" % (hx(et), hx(h)))
     ctx.notes.append("etag exhaustive: every header of length <= %d over {\",a,b,W,/,*,',',SP} against 4 ETags" % L)
@@ -765,7 +811,7 @@ def interesting_times(ctx):
             ts += [t0, t0 - 1]
             if m == 2:
                 ts += [t0 + 27 * 86400, t0 + 28 * 86400, t0 + 29 * 86400 - 1]
-    n = 40000 if ctx.quick else 400000
+    n = 100000 if ctx.quick else 800000
     for _ in range(n):
         r = rng.random()
         if r < 0.5:
@@ -878,13 +924,13 @@ def run(ctx):
         ctx.broken.append({"kind": "harness-build", "names": [HARNESS], "log": err[-3000:]})
         return
     q = ctx.quick
-    rng_lines = gen_rng(ctx, 90000 if q else 900000)
+    rng_lines = gen_rng(ctx, 220000 if q else 1800000)
     ctx.differential("range(rfc7233 over chunk queues)", [exe], MODEL, rng_lines, oracle, classify)
-    parse_lines = gen_parse(ctx, 60000 if q else 600000)
+    parse_lines = gen_parse(ctx, 150000 if q else 1200000)
     ctx.differential("range(parse/coalesce, large lengths)", [exe], MODEL, parse_lines, oracle, classify)
-    etag_lines = gen_etag(ctx, 60000 if q else 400000)
+    etag_lines = gen_etag(ctx, 150000 if q else 1000000)
     ctx.differential("etag(http_etag_matches)", [exe], MODEL, etag_lines, oracle, classify)
-    cond_lines = gen_cond(ctx, 40000 if q else 300000)
+    cond_lines = gen_cond(ctx, 100000 if q else 800000)
     ctx.differential("cond(http_response_handle_cachable)", [exe], MODEL, cond_lines, oracle, classify)
     fmt, parse, misc = gen_dates(ctx)
     ctx.differential("date(http_date_time_to_str)", [exe], MODEL, fmt, oracle, classify)
@@ -913,7 +959,7 @@ def replay_line(ctx, rep):
     print("input:", rep["input"])
     print("impl :", o, rc)
     print("model:", m)
-    v = oracle(rep["input"], o[0]) if o else "crash"
+    v = oracle_detail(rep["input"], o[0]) if o else "crash"
     print("oracle:", v)
     if v or (o != m):
         print("VIOLATION property=%s replay=%s" % (ctx.pid, "(replayed)"))
